@@ -61,6 +61,8 @@ def run(prog, chk):
                     "blues attributes alone - explicit stems are not dropped because the font has no alignment zones, nor the other way round (R16.12)"]
     chk.decided += ["OS/2 sub / superscript metrics: an absent superscript size falls back to the *resolved* subscript size and an absent x offset is derived from the *resolved* y offset of the same "
                     "table (an explicit sibling value carries over), as the fallback chain of setupTable_OS2 defines it (R16.13)"]
+    chk.decided += ["head.created is the font info's openTypeHeadCreated (explicit or fallback) converted to a time value and shifted to the Mac epoch - nothing else is applied to it (no clamping "
+                    "against the build time) (R16.14)"]
     chk.not_decided += ["the field values themselves", "which code points the Unicode database decomposes to ASCII",
                         "that the saved font reloads"]
     static, special = fallback_tables(prog, chk)
@@ -79,6 +81,7 @@ def run(prog, chk):
     chk.guard(r1611, prog, chk)
     chk.guard(r1612, prog, chk)
     chk.guard(r1613, prog, chk)
+    chk.guard(r1614, prog, chk)
 
 
 # ------------------------------------------------------------------------- tables
@@ -1275,7 +1278,31 @@ def r1613(prog, chk):
     chk.minimum("R16.13", 4)
 
 
+# ----------------------------------------------------------------------------- R16.14
+def r1614(prog, chk):
+    ix = prog.ix
+    f = ix.get_method(BASE_OUTLINE, "setupTable_head", own=True)
+    sts = [(s_, t, v) for s_, t, v in attr_stores(f, "created")]
+    need(len(sts) == 1, f"cannot interpret {f.short}: head.created")
+    s_, t, v = sts[0]
+
+    def is_conv(x, ff):
+        return isinstance(x, ast.Call) and A.callee_name(x) == "dateStringToTimeValue" and len(x.args) == 1 and isinstance(x.args[0], ast.Call) \
+            and prog.is_call_to(ff, x.args[0], GETATTR) and A.is_const(x.args[0].args[1], "openTypeHeadCreated")
+    ok = isinstance(v, ast.BinOp) and isinstance(v.op, ast.Sub)
+    if ok:
+        okl, _ = every_origin(prog, f, v.left, is_conv, allow_const=False)
+        ok = okl and ((prog.ix.resolve_expr(f.module, v.right, None) or "").endswith("mac_epoch_diff") or T(v.right).endswith("mac_epoch_diff")) and not [g for g in may_conds(prog, f, s_) if g.kind in ("if", "boolop", "ifexp") and not is_early_exit_guard(prog, f, g)]
+    chk.ob("R16.14", f"{f.short}|head.created = dateStringToTimeValue(<openTypeHeadCreated>) - mac_epoch_diff, nothing else", ok, where(f, s_), detail=T(v, 90),
+           message=f"{f.short}: head.created is not simply the (explicit or fallback) openTypeHeadCreated converted to a timestamp (`{T(v, 70)}`): an explicit creation date is altered "
+                   f"(e.g. clamped against the build time) on its way into the font")
+    chk.minimum("R16.14", 1)
+
+
 MUTANTS = [
+    M("explicit creation date clamped to the build time (seeded C16n)", "ufo2ft/outlineCompiler.py", "BaseOutlineCompiler.setupTable_head",
+      "head.created = dateStringToTimeValue(getAttrWithFallback(font.info, 'openTypeHeadCreated')) - mac_epoch_diff",
+      "head.created = min(dateStringToTimeValue(getAttrWithFallback(font.info, 'openTypeHeadCreated')), dateStringToTimeValue(dateStringForNow())) - mac_epoch_diff", rule="R16.14"),
     M("vertical tables only built when all three vhea metrics are non-zero (seeded C16m)", "ufo2ft/outlineCompiler.py", "BaseOutlineCompiler.compile",
       "getAttrWithFallback(self.ufo.info, metric) is not None", "getAttrWithFallback(self.ufo.info, metric)", rule="R16.8"),
     M("slant helper called with its arguments swapped (mutation scan 4, k=143)", "ufo2ft/outlineCompiler.py", "BaseOutlineCompiler.setupTable_OS2",
